@@ -162,6 +162,9 @@ def url_parse(I, args, ins):
         for name, val in (('Scheme', sc), ('Opaque', opaque), ('Host', host), ('Path', path), ('RawQuery', rq), ('Fragment', frag), ('ForceQuery', force_q)):
             v = v.with_field(I.prog.field_index(T, name), val)
         return TupleV((ctx.alloc(GStructV(v, {'str': s}), 'url'), None))
+    exact = _parse_rope_url(I, s, ins)
+    if exact is not None:
+        return exact
     okf = z3.Function('url.ParseOK', z3.StringSort(), z3.BoolSort())
     if not ctx.branch(okf(s)):
         return TupleV((None, ctx.new_error('url', msg='parse error')))
@@ -170,6 +173,40 @@ def url_parse(I, args, ins):
     ts = term_scheme(I, s)
     v = v.with_field(fi, ts if ts is not None else z3.simplify(url_scheme_of(s)))
     return TupleV((ctx.alloc(GStructV(v, {'str': s}), 'url'), None))
+
+
+def _parse_rope_url(I, s, ins):
+    """url.Parse of concrete text with a '?' in it followed by a rope of concrete text and escaper output
+    (what code that writes a redirect URL by hand produces): everything up to the first '?' is parsed as the
+    concrete URL it is, the rest is the raw query. None when the text has another shape."""
+    from ..runner import z3_unescape
+    parts = concat_parts(s)
+    k = 0
+    head = ''
+    while k < len(parts) and z3.is_string_value(parts[k]):
+        head += z3_unescape(parts[k].as_string())
+        k += 1
+    if k == 0 or k == len(parts):
+        return None
+    parts = [z3.StringVal(head)] + parts[k:]
+    if '?' not in head or '#' in head:
+        return None
+    for q in parts[1:]:
+        if z3.is_string_value(q):
+            t = z3_unescape(q.as_string())
+            if '#' in t or any(ord(c) < 0x20 or ord(c) == 0x7f for c in t):
+                return None
+        elif not (z3.is_app(q) and q.decl().name() in ('url.QueryEscape', 'url.PathEscape')):
+            return None
+    before, after = head.split('?', 1)
+    r = url_parse(I, [before], ins)
+    up = I.ctx.force(r[0])
+    if up is None:
+        return None
+    v = I.ctx.load(up)
+    rq = z3.Concat(*([z3.StringVal(after)] if after else []) + parts[1:]) if (after or len(parts) > 2) else parts[1]
+    v = v.with_field(I.prog.field_index('net/url.URL', 'RawQuery'), rq)
+    return TupleV((I.ctx.alloc(GStructV(v, {'str': s}), 'url'), None))
 
 
 # ------------------------------------------------------------------ query strings as ropes
